@@ -298,7 +298,7 @@ class Stream:
         Internal helper. Calls the IStreamListener function 'func' with
         the given args, guarding around errors.
         """
-        for x in self.listeners:
+        for x in list(self.listeners):
             try:
                 getattr(x, func)(*args, **kw)
             except Exception:
